@@ -239,6 +239,8 @@ pub async fn run_net_scenario(sc: &Value, workdir: &str) -> Vec<Value> {
     let mut clients: BTreeMap<i64, Client> = BTreeMap::new();
     let mut servers: BTreeMap<String, (TcpListener, Vec<TcpStream>)> = BTreeMap::new();
     let mut nmsg = 0usize;
+    let mut hoard: Vec<std::fs::File> = vec![];
+    let mut saved_limit: Option<u64> = None;
     let ops: Vec<Value> = sc["ops"].as_array().cloned().unwrap_or_default();
     macro_rules! with_sock {
         ($s:ident, $body:expr) => {
@@ -315,12 +317,25 @@ pub async fn run_net_scenario(sc: &Value, workdir: &str) -> Vec<Value> {
                     continue;
                 };
                 let r = with_sock!(s, tokio::time::timeout(SETTLE, s.unbind(ep)).await);
+                // "blocking until the endpoint is no longer in use": a connection attempt made the instant unbind has
+                // returned - synchronously, without giving the runtime another turn - must already be refused
+                let mut after = "n/a".to_string();
+                if name == "unbind" && matches!(r, Ok(Ok(()))) {
+                    if let Some(hp) = text.strip_prefix("tcp://") {
+                        if let Some(addr) = std::net::ToSocketAddrs::to_socket_addrs(hp).ok().and_then(|mut a| a.next()) {
+                            let c = std::net::TcpStream::connect_timeout(&addr, Duration::from_millis(300));
+                            after = if c.is_ok() && listening_here(addr.port()) { "accepted".into() } else { "refused".into() };
+                        }
+                    } else if let Some(path) = text.strip_prefix("ipc://") {
+                        after = if std::os::unix::net::UnixStream::connect(path).is_ok() { "accepted".into() } else { "refused".into() };
+                    }
+                }
                 let res = match r {
                     Ok(Ok(())) => "ok".to_string(),
                     Ok(Err(e)) => format!("err:{}", errkind(&e).0),
                     Err(_) => "timeout".to_string(),
                 };
-                out.push(json!({"ev":name,"name":nm,"res":res}));
+                out.push(json!({"ev":name,"name":nm,"res":res,"after":after}));
             }
             "binds" => {
                 if sock.is_none() {
@@ -367,6 +382,40 @@ pub async fn run_net_scenario(sc: &Value, workdir: &str) -> Vec<Value> {
                 let port: u16 = text.rsplit(':').next().and_then(|p| p.parse().ok()).unwrap_or(0);
                 let ours = if text.starts_with("ipc://") { true } else { res != "refused" && listening_here(port) };
                 out.push(json!({"ev":"probe","name":nm,"res":res,"settled":want_refused,"ours":ours}));
+            }
+            "fd_exhaust" => {
+                // the process runs out of descriptors: accept() on every listener fails (EMFILE) while a connection waits in
+                // the backlog; `keep` descriptors are left for the scripted client itself
+                let keep = op.get("keep").and_then(|v| v.as_u64()).unwrap_or(1) as usize;
+                let mut lim = libc::rlimit { rlim_cur: 0, rlim_max: 0 };
+                unsafe { libc::getrlimit(libc::RLIMIT_NOFILE, &mut lim) };
+                saved_limit = Some(lim.rlim_cur);
+                let cur = fd_count() as u64;
+                let newlim = libc::rlimit { rlim_cur: (cur + 200).min(lim.rlim_max), rlim_max: lim.rlim_max };
+                unsafe { libc::setrlimit(libc::RLIMIT_NOFILE, &newlim) };
+                loop {
+                    match std::fs::File::open("/dev/null") {
+                        Ok(f) => hoard.push(f),
+                        Err(_) => break,
+                    }
+                    if hoard.len() > 100_000 {
+                        break;
+                    }
+                }
+                for _ in 0..keep {
+                    hoard.pop();
+                }
+                out.push(json!({"ev":"fd_exhaust","held":hoard.len(),"keep":keep}));
+            }
+            "fd_release" => {
+                hoard.clear();
+                if let Some(c) = saved_limit.take() {
+                    let mut lim = libc::rlimit { rlim_cur: 0, rlim_max: 0 };
+                    unsafe { libc::getrlimit(libc::RLIMIT_NOFILE, &mut lim) };
+                    lim.rlim_cur = c;
+                    unsafe { libc::setrlimit(libc::RLIMIT_NOFILE, &lim) };
+                }
+                out.push(json!({"ev":"fd_release"}));
             }
             "ipc_sabotage" => {
                 // somebody replaces the endpoint's socket file by a directory: the listener keeps working (it holds the
